@@ -1,2 +1,103 @@
-/-! placeholder driver (property C11 not built yet) -/
-def main : IO Unit := IO.println "bad-op"
+import LlgoVerif.Util
+import LlgoVerif.Model.Sema
+/-! Line-protocol driver for C11 (semaphore + notify list under a schedule).
+
+    `run <cfg> <val> <progs> <schedule>`
+      <cfg>      three bits `ticketLess oneBroadcast casRetry` (`000` = pinned tree, `111` = repaired)
+      <val>      initial semaphore count
+      <progs>    threads separated by `;`, operations by `.`: `A` acquire `R` release `W` add+wait `O` NotifyOne `B` NotifyAll
+      <schedule> actions separated by `,`: `s<i>` | `s<i>><pick>` | `w<i>` ; `-` = empty
+    answer: `<trace> # <end>` in the format of harness/c11 (one semaphore, one list):
+      step = `<action>;<events>;S<val>/<waiters>:L<wait>/<notify>:T<status>.<parked at>.<ops done>,…`
+      end  = `done` | `stuck` | `cut` | `disabled@<k>` -/
+open LlgoVerif LlgoVerif.Util LlgoVerif.Sema
+
+def parseOp : Char → Option Op
+  | 'A' => some .acquire | 'R' => some .release | 'W' => some .wait | 'O' => some .notifyOne | 'B' => some .notifyAll
+  | _ => none
+
+def parseProg (s : String) : Option (List Op) :=
+  if s = "-" || s = "" then some [] else (s.splitOn ".").mapM fun o =>
+    match o.toList with
+    | [c] => parseOp c
+    | _ => none
+
+def parseAction (s : String) : Option Action :=
+  match s.toList with
+  | 's' :: rest =>
+    match (String.ofList rest).splitOn ">" with
+    | [i] => i.toNat?.map fun i => Action.step i 0
+    | [i, p] => do pure (Action.step (← i.toNat?) (← p.toNat?))
+    | _ => none
+  | 'w' :: rest => (String.ofList rest).toNat?.map Action.spurious
+  | _ => none
+
+def parseCfg (s : String) : Option Cfg :=
+  match s.toList with
+  | [a, b, c] =>
+    if (a = '0' || a = '1') && (b = '0' || b = '1') && (c = '0' || c = '1') then
+      some ⟨a = '1', b = '1', c = '1'⟩
+    else none
+  | _ => none
+
+def showEvent : Option Event → String
+  | none => "-"
+  | some (.acquired _) => "A0"
+  | some .released => "R0"
+  | some (.ticket t) => s!"K0.{t}"
+  | some (.waitRet t n) => s!"W0.{t}.{n}"
+  | some .notifiedOne => "O0"
+  | some .notifiedAll => "B0"
+
+def showState (s : State) : String :=
+  let ths := s.threads.map fun t => s!"{t.status s.sh}.{t.parkedAt}.{t.opsDone}"
+  s!"S{s.sh.val}/{s.sh.waiters}:L{s.sh.wait}/{s.sh.notify}:T{",".intercalate ths}"
+
+def endOf (s : State) : String :=
+  if s.threads.all (fun t => t.pc = .done) then "done"
+  else if s.threads.all (fun t => t.status s.sh ≠ 'r') then "stuck"
+  else "cut"
+
+/-- in the harness the release event `R` is reported when `semaRelease` RETURNS (the model's ghost event marks the Add);
+    the other events coincide with the return of the operation -/
+def eventsOf (before : Thread) (after : Option Thread) (ev : Option Event) : String :=
+  match ev with
+  | some .released => "-"
+  | some e => showEvent (some e)
+  | none =>
+    match before.pc, after with
+    | .rLock, some a => if a.opsDone = before.opsDone + 1 then "R0" else "-"
+    | _, _ => "-"
+
+def runTrace (cfg : Cfg) (s : State) (acts : List String) : String := Id.run do
+  let mut st := s
+  let mut out := #["init;-;" ++ showState s]
+  let mut k := 0
+  for a in acts do
+    match parseAction a with
+    | none => return "|".intercalate out.toList ++ s!" # disabled@{k}"
+    | some act =>
+      match nextEv cfg st act with
+      | none => return "|".intercalate out.toList ++ s!" # disabled@{k}"
+      | some (st', ev) =>
+        let evs := match act with
+          | .step i _ => match st.threads[i]? with
+            | some b => eventsOf b st'.threads[i]? ev
+            | none => "-"
+          | .spurious _ => "-"
+        out := out.push (a ++ ";" ++ evs ++ ";" ++ showState st')
+        st := st'
+        k := k + 1
+  return "|".intercalate out.toList ++ " # " ++ endOf st
+
+def handle (line : String) : String :=
+  match fields line with
+  | ["run", c, v, progs, sched] =>
+    match parseCfg c, v.toNat?, (progs.splitOn ";").mapM parseProg with
+    | some cfg, some v, some ps =>
+      let acts := if sched = "-" then [] else sched.splitOn ","
+      runTrace cfg (init v ps) acts
+    | _, _, _ => "bad-op"
+  | _ => "bad-op"
+
+def main : IO Unit := lineLoop handle
